@@ -494,7 +494,12 @@ func c17Limiters(c *Ctx, r *Report, rule string) {
 		for rateF, p := range pairs {
 			for _, st := range storesToField(fn, hname, p[0]) {
 				nd++
-				ls := leafSet(c.originsIP(fn, st.Val, 0), true)
+				var ls []string
+				for _, l := range leafSet(c.originsIP(fn, st.Val, 0), true) {
+					if l != "field:"+hname+"."+p[0] { // keeping the configured value is not a default
+						ls = append(ls, l)
+					}
+				}
 				good := len(ls) == 1 && ls[0] == "field:"+hname+"."+rateF
 				r.check(good, rule, fname(fn), "default of "+p[0], c.ipos(st), "derived from "+rateF+" only", "the default written to "+p[0]+" derives from "+strings.Join(ls, ", ")+" instead of "+rateF+" alone: a connection (or the handler) is admitted a burst that its own configured rate does not justify")
 			}
